@@ -56,9 +56,24 @@ theorem rrepr_match_perm (S S' : Router E) (L L' : List Route) (h : RRepr E S L)
   intro r
   rw [rrepr_mem_match E S L h, rrepr_mem_match E S' L' h', hm r, sat_congr E L L' r q hm]
 
-theorem rrepr_mem_trace (S : Router E) (L : List Route) (h : RRepr E S L) (q : Req) (r : Route) :
-    r ∈ routesOfList (S.trace E q) ↔ r ∈ S.matchReq E q :=
+/-- all routes stored anywhere in the traces (with repetitions) are the matching routes -/
+theorem rrepr_mem_rawTrace (S : Router E) (L : List Route) (h : RRepr E S L) (q : Req) (r : Route) :
+    r ∈ rawRoutesOfList (S.trace E q) ↔ r ∈ S.matchReq E q :=
   (towerLaws E).mem_trace _ _ q r h.matcher h.uids
+
+/-- `get_routes_from_traces(trace_request(q))` lists exactly the matching routes -/
+theorem rrepr_mem_trace (S : Router E) (L : List Route) (h : RRepr E S L) (q : Req) (r : Route) :
+    r ∈ routesOfList (S.trace E q) ↔ r ∈ S.matchReq E q := by
+  rw [mem_routesOfList_iff L h.uids _ (fun y hy =>
+    ((rrepr_mem_match E S L h q y).1 ((rrepr_mem_rawTrace E S L h q y).1 hy)).1) r]
+  exact rrepr_mem_rawTrace E S L h q r
+
+/-- ... each once: it is a permutation of the match result -/
+theorem rrepr_trace_perm (S : Router E) (L : List Route) (h : RRepr E S L) (q : Req) :
+    (routesOfList (S.trace E q)).Perm (S.matchReq E q) := by
+  rw [List.perm_ext_iff_of_nodup (nodup_of_map_nodup _ _ (routesOfList_nodupIds _))
+    (rrepr_nodup_match E S L h q).1]
+  intro r; exact rrepr_mem_trace E S L h q r
 
 theorem rrepr_len (S : Router E) (L : List Route) (h : RRepr E S L) : S.len E = L.length := by
   unfold Router.len
